@@ -23,12 +23,17 @@ PROP = dict(
         "Comdex.C10.v1_bid_moves_and_close_distributes", "Comdex.C10.v1_bid_at_posted_price", "Comdex.C10.v1_esm_winddown_empties_custody",
         "Comdex.C10.l1_bidders_pay_le_target_and_receive_le_seized", "Comdex.C10.l1_close_custody_partial",
         "Comdex.C10.l1_bid_moves_and_close_distributes", "Comdex.C10.l1_close_custody_counterexample",
+        "Comdex.C10.price_in_band_every_reachable_state", "Comdex.C10.esm_leaves_nonvault_auction_untouched_past_end",
+        "Comdex.C10.trigger_esm_moves", "Comdex.C10.esm_trigger_repeats_counterexample", "Comdex.C10.debt_custody_every_history",
+        "Comdex.C10.vault_close_distributes", "Comdex.C10.external_close_distributes", "Comdex.C10.lend_close_distributes",
+        "Comdex.C10.l1_close_distributes_all",
     ],
     harness_tests=["TestC10"],
     monitors=["pay_le_target", "receive_le_collateral", "books_exact", "close_distributes", "posted_price", "price_monotone", "price_in_range",
               "price_in_range_slack", "price_below_end_at_T", "start_price", "start_record", "reserve_draw_skipped", "limit_fill_overcharge",
               "proceeds_forwarded", "lend_bonus_stranded", "leftover_to_owner", "bid_refused", "leftover_to_owner_after_d7",
-              "books_exact_after_d7", "pay_le_target_after_d7", "receive_le_collateral_after_d7", "close_distributes_after_d7"],
+              "books_exact_after_d7", "pay_le_target_after_d7", "receive_le_collateral_after_d7", "close_distributes_after_d7",
+              "esm_payout_le_proceeds", "close_distributes_after_esm_trigger", "leftover_to_owner_after_esm_trigger", "lend_close_books", "bid_wrong_denom_refused", "close_branch_split"],
     trusted_base=[KERNEL_TB, HARNESS_TB,
                   "extract/effects (go/ast, no type checking): ordered bank calls of auctionsV2.PlaceDutchAuctionBid, auction.PlaceDutchAuctionBid, auction.CloseDutchAuction with path conditions, texts normalised; PINNED in "
                   "Props/C10Effects.lean against a reviewed literal (abstract party / denomination texts, positivity class, condition hashes) — "
@@ -43,9 +48,11 @@ PROP = dict(
                   "eleven account balances, collector fees, booked fees, reserve record and supply after every operation",
                   "Model/DutchV1.lean is hand-written from x/auction/keeper/dutch.go:164-463,465-663 and x/collector/keeper/collector.go:14-39; "
                   "tied by replaying generated bid / block-hook sequences on vaults seized by the real first-generation liquidation keeper",
-                  "Model/DutchV1Lend.lean is hand-written from x/auction/keeper/dutch_lend.go:136-497; tied by real x/liquidation borrow "
-                  "liquidations (MsgLiquidateBorrow, sweep) and MsgPlaceDutchLendBid; the lend-side book-keeping of the close, the reserve "
-                  "balance and an immediate re-liquidation are external values read off the real stores / balances",
+                  "Model/DutchV1Lend.lean + Model/DutchV1LendBook.lean are hand-written from x/auction/keeper/dutch_lend.go:136-497 and "
+                  "x/liquidation/keeper/liquidate_borrow.go:241-341,354-607 (same-pool branch); tied by real x/liquidation borrow liquidations "
+                  "(MsgLiquidateBorrow, sweep; borrows aged up to a year with their interest booked) and MsgPlaceDutchLendBid, comparing after "
+                  "every line the auction record, pool / lend-module / auction-module / owner / bidder balances, the locked vault, the borrow "
+                  "position, the interest tracker and three cToken balances; only the oracle prices of the block of the bid are inputs",
                   "second-generation lend close: penalty, reserve interest and bridge amount are external values read from the lend stores; "
                   "cTokens are not tracked",
                   "x/bank (send/burn semantics, module accounts), protobuf and the KV store are exercised, not modelled beyond balances"],
@@ -53,7 +60,9 @@ PROP = dict(
                  "bidders, owner, keeper, initiator, collector, reserve and module accounts are distinct accounts",
                  "auction parameters (window, premium, discount) do not change while an auction is open",
                  "block times are whole seconds in the harness (the code truncates elapsed time to whole seconds)",
-                 "ESM / kill switch not triggered (covered by C14)"],
+                 "emergency shutdown of the app: the iterator's ESM branch is modelled and driven (price band for every initiator kind, "
+                 "TriggerEsm for vault-initiated auctions); the exact ledger theorems cover shutdown blocks for lend- / externally initiated "
+                 "auctions only (TriggerEsm pays the proceeds out while the auction stays open: finding D35); kill switch: C14"],
     rule="pure part: each line is one call of a real price helper or one real price update on a stored auction of either generation "
          "(boundary and random start prices, discounts, windows, elapsed times 0, 1, T/3, T/2, T-1, T, beyond); sequence part: each case is "
          "one position seized by the real liquidationsV2 keeper (vault sweep, keeper message, external liquidation or lend borrow; five asset pairs with "
@@ -80,7 +89,9 @@ META = dict(
          "at one premium (D7) break pay<=target and receive<=collateral; an insufficient app reserve is silently ignored and other users' funds "
          "in the module account pay for the close. Also found by the monitors: a limit fill clipped by exhausted collateral debits the whole "
          "remaining target from the deposit (limit_fill_overcharge).",
-    note="Partial: lend-side book-keeping at the close of a first-generation lend auction is not modelled (external inputs); cTokens are not "
-         "tracked; second-generation ESM trigger is out of scope (C14). The V2 ledger theorems carry the hypothesis 'at most one limit bid "
-         "per premium' because the code is wrong without it (D7); first-generation lend custody is exact only up to the unpaid bonus pot (D32).",
+    note="Partial: first-generation lend close is modelled for same-pool borrows (cross-pool: the bridge-asset settlement of CreteNewBorrow is "
+         "not driven); second-generation lend close takes penalty / reserve interest / bridge amount as values read from the lend stores. The exact "
+         "V2 ledger theorems carry 'at most one limit bid per premium' because the code is wrong without it (D7); debt_custody_every_history "
+         "states what holds without it. First-generation lend custody is exact only up to the unpaid bonus pot (D32). Emergency shutdown: the "
+         "iterator's branch is modelled; TriggerEsm repeats every block (D35).",
 )
